@@ -7,4 +7,10 @@ require (
 	pgregory.net/rapid v1.3.0
 )
 
+require (
+	golang.org/x/mod v0.22.0 // indirect
+	golang.org/x/sync v0.10.0 // indirect
+	golang.org/x/tools v0.29.0
+)
+
 replace github.com/traefik/yaegi => /repo
